@@ -280,10 +280,78 @@ def runInit (payload : String) : State × String :=
       | .error m => (st, "init-failed: " ++ m)
   go initState libs
 
+/-- engine `hist` (C02): steps evaluated one after the other on one store; after every step every
+    binding made so far is rendered again -/
+def runHist (base : State) (payload : String) : String :=
+  let steps := payload.splitOn " || "
+  let vname (i : Nat) : String := "v" ++ String.singleton (Char.ofNat (97 + i % 26)) ++ String.singleton (Char.ofNat (48 + i / 26))
+  let rec go (st : State) (j : Nat) : List String → List String
+    | [] => []
+    | s :: rest =>
+      match Proto.parseLine s with
+      | none => ["bad-op"]
+      | some ast =>
+        let (r, st') := eval evalFuel st 0 ast 1
+        let tag := match r with | .ok _ => "k" | _ => "E"
+        let deref := fun id => st'.atoms[id]?
+        let vals := (List.range (j + 1)).map fun i => match st'.get 0 (vname i) with
+          | some v => Proto.render deref v
+          | none => "?"
+        (tag ++ String.join (vals.map (" " ++ ·))) :: go st' (j + 1) rest
+  let out := " | ".intercalate (go base 0 steps)
+  out ++ "\t" ++ out
+
+/-- engine `pos` (C17): program text read under a module name, evaluated; the position of the error -/
+def runPos (base : State) (payload : String) : String :=
+  let fs := payload.splitOn " "
+  let get (p : String) : Option String := (fs.find? (·.startsWith p)).map (fun f => (f.drop p.length).toString)
+  match (get "m=").bind Proto.hexDecode, (get "x").bind hexBytes with
+  | some module, some bs =>
+    match Read.readStr { module := some module, hasEnv := true } bs with
+    | .error e => "read-error " ++ errClass e
+    | .ok ast =>
+      match (eval evalFuel base 0 ast 1).1 with
+      | .ok _ => "ok"
+      | .oof => "OOF"
+      | .err (.plain _) => "err nopos"
+      | .err (.lisp _ none) => "err nopos"
+      | .err (.lisp _ (some p)) =>
+        let m := match p.module with | some m => Proto.hexEncode m | none => "-"
+        s!"err pos={m},{p.beginRow},{p.row},{p.beginCol},{p.col}"
+  | _, _ => "bad-op"
+
+/-- engine `routes` (C19): the program text (one `do` expression with the generated layout) read under
+    a module name by the model reader and evaluated by the model evaluator -/
+def runRoutes (base : State) (payload : String) : String :=
+  match payload.splitOn " " with
+  | namesS :: endingH :: betweenH :: formsH =>
+    let dec (h : String) : String := (Proto.hexDecode h).getD ""
+    let between := dec betweenH
+    let text := "(do" ++ between ++ between.intercalate (formsH.map dec) ++ between ++ "nil)" ++ dec endingH
+    let names := namesS.splitOn ","
+    match Read.readStr { module := some "prog.lisp", hasEnv := true } text.toUTF8.toList with
+    | .error e => "err " ++ errClass e ++ " trace=[] defs=[" ++ joinSemi (names.map (· ++ "=?")) ++ "]"
+    | .ok ast =>
+      let (r, st) := eval evalFuel base 0 ast 1
+      let deref := fun id => st.atoms[id]?
+      let res := match r with
+        | .ok _ => "ok"
+        | .err (.lisp _ _) => "err other"
+        | .err (.plain _) => "err plain:other"
+        | .oof => "OOF"
+      let defs := names.map fun n => match st.get 0 n with
+        | some v => n ++ "=" ++ Proto.render deref v
+        | none => n ++ "=?"
+      s!"{res} trace=[{joinSemi (st.trace.reverse.map (Proto.render deref))}] defs=[{joinSemi defs}]"
+  | _ => "bad-op"
+
 def handleS (base : State) (line : String) : State × String :=
   match line.splitOn "\t" with
   | ["init", payload] => runInit payload
   | ["eval", payload] => (base, runEval base payload)
+  | ["hist", payload] => (base, runHist base payload)
+  | ["pos", payload] => (base, runPos base payload)
+  | ["routes", payload] => (base, runRoutes base payload)
   | _ => (base, handle line)
 
 partial def loop (h : IO.FS.Stream) (out : IO.FS.Stream) (base : State) : IO Unit := do
